@@ -50,7 +50,10 @@ func hostileTrace(en *Env, cfg h.Cfg) int {
 		case c < 45:
 			e.Delete(k)
 		case c < 60:
-			e.Get(k)
+			// the same key read several times in a row (each returned slice is the caller's own)
+			for j := 1 + r.Intn(3); j > 0 && !e.Dead; j-- {
+				e.Get(k)
+			}
 		case c < 85:
 			// repeated Batch.Put on one key, then arbitrary later Puts
 			e.NewBatch(false)
